@@ -4,7 +4,8 @@
    water_isotope, water_activity are the textbook definitions of coq/C16/Spec.v. *)
 From Coq Require Import Reals QArith Qreals Qabs List String.
 From Coquelicot Require Import Coquelicot.
-From IPV Require Import Base.RExpr Base.IntervalEval C16.Spec C16.Checker C16.GammaProofs Gen.Gen_C16_gammas Gen.Gen_C16_aw.
+From IPV Require Import Base.RExpr Base.IntervalEval C16.Spec C16.Checker C16.GammaProofs C16.PitzerTerms
+  Gen.Gen_C16_gammas Gen.Gen_C16_aw Gen.Gen_C16_pitzer Gen.Gen_C16_sit.
 Import ListNotations.
 Local Open Scope R_scope.
 Local Open Scope string_scope.
@@ -113,6 +114,103 @@ Theorem water_activity_def : forall osum phi,
   evalR (env_of [osum; phi]) sit_AW = water_activity phi osum.
 Proof. exact aw_is_water_activity. Qed.
 Print Assumptions water_activity_def.
+
+
+(* --- Pitzer sums (pz_* regenerated from Phreeqc::pitzer, G, GP): every parameter type contributes to ln gamma and to
+   the osmotic sum as the derivative / Euler complement of ONE potential g (consistent2 / consistent3 / consistent2X are
+   defined in C16/PitzerTerms.v:  d0, d1(, d2) = dg/dm_k at fixed I, Z;  dX = dg/dX for X = I or Z;
+   2 * OSMOT-increment = sum m_k dg/dm_k + X dg/dX - g).  Together with gibbs_duhem_from_potential this is Gibbs-Duhem
+   for the implemented model, for all molalities, parameters and I > 0 — except the parts named below. --- *)
+Theorem pitzer_terms_thermodynamically_consistent :
+  (forall p m0 m1, consistent2 (fun a b => 2 * a * b * p) m0 m1
+      (evalR (env_of [m0; m1; p]) pz_B0_g0) (evalR (env_of [m0; m1; p]) pz_B0_g1) (evalR (env_of [m0; m1; p]) pz_B0_os)) /\
+  (forall th m0 m1, consistent2 (fun a b => 2 * a * b * th) m0 m1
+      (evalR (env_of [m0; m1; th]) pz_TH_g0) (evalR (env_of [m0; m1; th]) pz_TH_g1) (evalR (env_of [m0; m1; th]) pz_TH_os)) /\
+  (forall p m0 m1 m2,
+    consistent3 (fun a b c => a * b * c * p) m0 m1 m2
+      (evalR (env_of [m0; m1; m2; p]) pz_PSI_g0) (evalR (env_of [m0; m1; m2; p]) pz_PSI_g1) (evalR (env_of [m0; m1; m2; p]) pz_PSI_g2)
+      (evalR (env_of [m0; m1; m2; p]) pz_PSI_os) /\
+    consistent3 (fun a b c => a * b * c * p) m0 m1 m2
+      (evalR (env_of [m0; m1; m2; p]) pz_ZETA_g0) (evalR (env_of [m0; m1; m2; p]) pz_ZETA_g1) (evalR (env_of [m0; m1; m2; p]) pz_ZETA_g2)
+      (evalR (env_of [m0; m1; m2; p]) pz_ZETA_os) /\
+    consistent3 (fun a b c => a * b * c * p) m0 m1 m2
+      (evalR (env_of [m0; m1; m2; p]) pz_ETA_g0) (evalR (env_of [m0; m1; m2; p]) pz_ETA_g1) (evalR (env_of [m0; m1; m2; p]) pz_ETA_g2)
+      (evalR (env_of [m0; m1; m2; p]) pz_ETA_os)) /\
+  (forall C z0 z1 m0 m1 Z, z0 * z1 <> 0 ->
+    let k := 2 * sqrt (Rabs (z0 * z1)) in
+    consistent2X (fun a b u => a * b * u * C / k) m0 m1 Z
+      (evalR (env_of [m0; m1; C; Z; z0; z1]) pz_C0_g0) (evalR (env_of [m0; m1; C; Z; z0; z1]) pz_C0_g1)
+      (evalR (env_of [m0; m1; C; z0; z1]) pz_C0_csum) (evalR (env_of [m0; m1; C; Z; z0; z1]) pz_C0_os)) /\
+  (forall beta al m0 m1 I, 0 < I -> al <> 0 ->
+    let x := al * sqrt I in
+    consistent2X (fun a b u => 2 * a * b * beta * Gf (al * sqrt u)) m0 m1 I
+      (evalR (env_of [m0; m1; beta; Gf x]) pz_B1_g0) (evalR (env_of [m0; m1; beta; Gf x]) pz_B1_g1)
+      (2 * evalR (env_of [m0; m1; beta; GPf x; I]) pz_B1_F) (evalR (env_of [m0; m1; beta; al; I]) pz_B1_os) /\
+    consistent2X (fun a b u => 2 * a * b * beta * Gf (al * sqrt u)) m0 m1 I
+      (evalR (env_of [m0; m1; beta; Gf x]) pz_B2_g0) (evalR (env_of [m0; m1; beta; Gf x]) pz_B2_g1)
+      (2 * evalR (env_of [m0; m1; beta; GPf x; I]) pz_B2_F) (evalR (env_of [m0; m1; beta; al; I]) pz_B2_os)) /\
+  (forall A0 I, 0 < I ->
+    is_derive (fun u => f_DH A0 u) I (2 * evalR (env_of [A0; I]) pz_DH_F) /\
+    2 * evalR (env_of [A0; I]) pz_DH_os = I * (2 * evalR (env_of [A0; I]) pz_DH_F) - f_DH A0 I) /\
+  (forall z F CSUM,
+    evalR (env_of [evalR (env_of [z]) pz_asm_z0; F; CSUM]) pz_asm_g = z * z * F + Rabs z * CSUM).
+Proof.
+  exact (conj pz_B0_consistent (conj pz_THETA_consistent (conj pz_PSI_ZETA_ETA_consistent (conj pz_C0_consistent
+        (conj pz_B1_B2_consistent (conj pz_DH_consistent pz_assembly)))))).
+Qed.
+Print Assumptions pitzer_terms_thermodynamically_consistent.
+
+(* the code's G and GP functions (x <> 0 branch) are Pitzer's g and g': g + g' = exp(-x), d/dI g(alpha sqrt I) = g'(alpha sqrt I)/I *)
+Theorem pitzer_G_GP_functions :
+  (forall x, x <> 0 -> Gf x + GPf x = exp (- x)) /\
+  (forall al I, 0 < I -> al <> 0 -> is_derive (fun u => Gf (al * sqrt u)) I (GPf (al * sqrt I) / I)).
+Proof. exact (conj G_plus_GP G_derivative). Qed.
+Print Assumptions pitzer_G_GP_functions.
+
+(* PARTIAL pieces of the Pitzer sums:
+   - ETHETA (unsymmetrical mixing): consistent for ANY function thetaE whose derivative at I is the reported ethetap; that the
+     numerical J-function code (ETHETAS / ETHETA_PARAMS) produces such a pair is NOT proved.
+   - LAMBDA / MU: consistent when the data-dependent factors satisfy ln_coef[0] = ln_coef[1] (= ln_coef[2]) = c and
+     os_coef = c/2 (LAMBDA) resp. c (MU); that pitzer_tidy sets them so for distinct species is NOT proved.
+   - the pressure-dependent variants F1, F2 of the Debye-Hueckel term (patm > 1) are not covered. *)
+Theorem pitzer_etheta_lambda_mu_consistent_partial :
+  (forall (thetaE : R -> R) (ethetap I : R), is_derive thetaE I ethetap -> forall m0 m1,
+    consistent2X (fun a b u => 2 * a * b * thetaE u) m0 m1 I
+      (evalR (env_of [m0; m1; thetaE I]) pz_ET_g0) (evalR (env_of [m0; m1; thetaE I]) pz_ET_g1)
+      (2 * evalR (env_of [m0; m1; ethetap]) pz_ET_F) (evalR (env_of [m0; m1; thetaE I; ethetap; I]) pz_ET_os)) /\
+  (forall la c m0 m1,
+    let env := env_of [m0; m1; la; c; c; c / 2] in
+    consistent2 (fun a b => c * a * b * la) m0 m1 (evalR env pz_LA_g0) (evalR env pz_LA_g1) (evalR env pz_LA_os)) /\
+  (forall mu c m0 m1 m2,
+    let env := env_of [m0; m1; m2; mu; c; c; c; c] in
+    consistent3 (fun a b w => c * a * b * w * mu) m0 m1 m2 (evalR env pz_MU_g0) (evalR env pz_MU_g1) (evalR env pz_MU_g2) (evalR env pz_MU_os)).
+Proof. exact (conj pz_ETHETA_consistent (conj pz_LAMBDA_consistent pz_MU_consistent)). Qed.
+Print Assumptions pitzer_etheta_lambda_mu_consistent_partial.
+
+(* --- SIT sums (sit_* regenerated from Phreeqc::sit; log10 units, (phi-1) sum m = ln 10 * OSMOT) --- *)
+Theorem sit_terms_thermodynamically_consistent :
+  (forall eps m0 m1,
+    let env := env_of [m0; m1; eps] in
+    (is_derive (fun x => ln 10 * eps * x * m1) m0 (ln 10 * evalR env sit_EPS_g0)) /\
+    (is_derive (fun y => ln 10 * eps * m0 * y) m1 (ln 10 * evalR env sit_EPS_g1)) /\
+    (ln 10 * evalR env sit_EPS_os = m0 * (ln 10 * evalR env sit_EPS_g0) + m1 * (ln 10 * evalR env sit_EPS_g1) - ln 10 * eps * m0 * m1)) /\
+  (forall A I, 0 < I ->
+    exists dF, is_derive (fun u => evalR (env_of [A; u]) sit_DH_F) I dF /\
+               is_derive (fun u => evalR (env_of [A; u]) sit_DH_os) I (2 * I * dF)) /\
+  (forall z F, evalR (env_of [z; F]) sit_asm_g = z * z * F).
+Proof. exact (conj sit_EPSILON_consistent (conj sit_DH_consistent sit_assembly)). Qed.
+Print Assumptions sit_terms_thermodynamically_consistent.
+
+(* --- Gibbs-Duhem from a potential, along ANY differentiable composition path (list of species of any length):
+   if dG/dt = sum_i lngamma_i dm_i/dt then d/dt [ sum_i m_i lngamma_i - G ] = sum_i m_i d(lngamma_i)/dt,
+   i.e.  sum_i m_i d ln gamma_i = d[(phi - 1) sum m]. --- *)
+Theorem gibbs_duhem_from_potential : forall (l : list species_path) (G : R -> R) t,
+  (forall s, In s l -> is_derive (sp_m s) t (sp_dm s) /\ is_derive (sp_lg s) t (sp_dlg s)) ->
+  is_derive G t (sum_over l (fun s => sp_lg s t * sp_dm s)) ->
+  is_derive (fun u => sum_over l (fun s => sp_m s u * sp_lg s u) - G u) t
+            (sum_over l (fun s => sp_m s t * sp_dlg s)).
+Proof. exact PitzerTerms.gibbs_duhem_from_potential. Qed.
+Print Assumptions gibbs_duhem_from_potential.
 
 (* --- verified checkers used by the correspondence run --- *)
 Theorem check_gamma_sound : forall m o, check_gamma m o = true ->
